@@ -42,7 +42,7 @@ CASE_TIMEOUT = 900
 
 # Set to False to drop the one clause that is an interpretation rather than the letter of the statement:
 # "with --enumerate-chroms, different chromosomes stay different in the SEG output".
-CLAIM_ENUMERATED_CHROMS_DISTINCT = True
+CLAIM_ENUMERATED_CHROMS_DISTINCT = False
 
 PLOIDIES = [2, 1, 3, 4, 5, 6]  # the default first
 GENOMES = [None, "grch37", "grch38"]
@@ -228,10 +228,10 @@ def cnr_bins(segs):
 
 
 def seg_rows(segs):
+    """(column names, rows) of a .cns file for these segments."""
     has_cn = bool(segs) and "cn" in segs[0]
     cols = COLS + (["cn"] if has_cn else [])
-    rows = [tuple(s[k] if k != "chromosome" else s["chrom"] for k in cols) for s in segs]
-    return cols, rows
+    return cols, [tuple(s["chrom"] if k == "chromosome" else s[k] for k in cols) for s in segs]
 
 
 def build_cna(segs, has_cn, index="default", sample_id="S"):
@@ -297,7 +297,7 @@ def describe(tier):
             "CDT/JTV/Nexus: the label text is open but must name chromosome, start (0- or 1-based) and end of exactly one bin; CDT rows AID / EWEIGHT are format rows",
             "bins differ = the (chromosome, start, end) sets differ; a file with the same bins in another row order or other gene names may be refused or merged correctly",
             "duplicate sample IDs: refusal, or both columns / both segment blocks present",
-            "with --enumerate-chroms only 'one chromosome <-> one id over the whole output' is demanded (interpretation; switch CLAIM_ENUMERATED_CHROMS_DISTINCT)",
+            "with --enumerate-chroms the chromosome ids are not compared (the statement does not speak of them; CLAIM_ENUMERATED_CHROMS_DISTINCT = False)",
             "the command line is always given the sample sex (-x); guessing it is property C15",
             "values printed through %.6g are compared to 6 significant digits, everything else to 1e-9",
         ],
